@@ -69,6 +69,11 @@ PROPS.update({
                       "documented node set with original node metadata, same weightedness, source unmodified) discharged for all inputs through loop invariants over the "
                       "contracted add_edge/add_nodes/set_*_metadata; get_edges(subhypergraph=True), the largest component and copy-independence are covered by the bounded tier."),
                 design_ref="DESIGN.md §7 C05", assumptions=["copy.deepcopy: equal value, no sharing (assumed library contract; independence checked in the bounded tier)"]),
+    "C11": _b("bounded run-time contract checking of the motif census against brute-force enumeration of all 3-/4-node subsets, relabelling and insertion-order invariance",
+              "Closures over mutable dictionaries, recursion and itertools put the census outside the deductive engine, and the property is a global counting identity: it is checked on "
+              "all hypergraphs of a stated small scope (all 2048 on 4 nodes, 5 nodes with few hyperedges), all relabellings, and seeded random ones; the 6 / 171 classes are recomputed "
+              "independently. For directed censuses the statement defines no count oracle: only invariance, canonical representatives and 'larger hyperedges ignored' are checked.",
+              "DESIGN.md §7 C11"),
     "C12": dict(level="exploration",
                 technique="contract-based deductive verification (AST->VC, z3) of in/out degree and their sequences + bounded run-time contract checking of signature and reciprocities",
                 text=("in_degree/out_degree(_sequence) are proved equal to the cardinality of the set of (filtered) hyperedges in which the node is a source / target, from the verified "
@@ -83,6 +88,13 @@ PROPS.update({
     "C14": _b("bounded run-time contract checking of the random generators over a parameter grid and many seeds",
               "numpy/random based generators are outside the deductive engine; structural contracts and same-seed reproducibility are evaluated for every parameter "
               "combination of a stated grid and seeds 0..19 (quick) / 0..199 (thorough).", "DESIGN.md §7 C14"),
+    "C15": _b("symbolic-real execution of the real closed-form methods on sympy object arrays (all real parameter values, fixed small shapes) + bounded run-time contract checking of fit()",
+              "Floating-point numpy code is outside the deductive engine. The closed forms are executed on arrays of sympy symbols and compared as polynomials with the brute-force sums "
+              "over all possible hyperedges: valid for all real u, w but only for the enumerated shapes (N <= 4 quick / 6 thorough, K <= 3). fit() is checked on a grid of hypergraphs, seeds, "
+              "K, priors and n_iter.", "DESIGN.md §7 C15"),
+    "C16": _b("bounded run-time contract checking of the sampler's outputs over configurations, burn-in/thinning lengths and seeds",
+              "numpy Generator / iterator code: bounded exploration. Every sampled hypergraph is checked for the statement's clauses; the conditioning clauses on all initial hypergraphs of a "
+              "small scope and on random degree/size sequences; same seed => same sequence.", "DESIGN.md §7 C16"),
     "C18": _b("bounded run-time contract checking of the random-walk operators (exact rationals as oracle) and of the contagion (exact synchronous reference for rates in {0,1})",
               "Floating point / numpy code: bounded exploration over all connected hypergraphs on <= 5 nodes and all initial conditions, horizons and rate triples of a stated grid.",
               "DESIGN.md §7 C18"),
